@@ -3,10 +3,10 @@ part; Type 3/4 are the plug-in part c02_t34).
 
 L1: theorems of NfcVerif.Props.C02: for every well-formed image, every message up to the
     capacity and EVERY prefix of the write-command list, a re-walk of the resulting memory
-    sees the old message, an empty message or the new message (`t12_cut_safe_partial`:
-    proved when the new length field is written by one command, i.e. 1-byte format or the
-    three bytes FF hi lo inside one write unit); `t12_cut_counterexample`: the torn state of
-    the remaining case (finding F2, open) is a theorem about the model as found.
+    sees the old message, an empty message or the new message (`t12_cut_safe`, full: every
+    alignment of the 3-byte length field in the write unit, units 1, 4, 8); the model has the
+    length-field write as repaired by fixes/C02 (F2).  The as-found write is kept in the model
+    and its torn state is an `example` of Props/C02.lean.
 L2: model vs nfcpy: ordered write commands (= the crash schedule) and, for every cut point,
     what a fresh reader sees.
 L3: real code: power is cut after the k-th state-changing command for every k; a fresh
@@ -23,9 +23,9 @@ LEAN_TARGETS = ["NfcVerif.Props.C02", "drv_t12"]
 PARTS = ["t34"] if os.path.exists(os.path.join(os.path.dirname(os.path.abspath(__file__)), "c02_t34.py")) else []
 
 THEOREMS = [
-    "NfcVerif.C02.t12_cut_safe_partial",
-    "NfcVerif.C02.t12_cut_counterexample",
+    "NfcVerif.C02.t12_cut_safe",
     "NfcVerif.C02.t12_prefix_mixture",
+    "NfcVerif.C02.t12_prefix_threshold",
 ]
 
 GOOD = ("O", "E", "N", "U", "W")
